@@ -84,6 +84,11 @@ func evalNode(res *RefResult, n *NodeSpec, path string, in any) (any, string) {
 	tag := path + n.Key
 	res.NodeRuns[tag]++
 	if (n.PreH == "v" || n.PreH == "s") && n.Kind != "pass" {
+		if n.Fault == "preherr" && n.Kind == "lambda" {
+			// the pre-handler runs first (before the input key is looked up) and fails: the body does not start
+			res.FaultTags = append(res.FaultTags, tag)
+			return nil, "fault"
+		}
 		in = PreValue(in)
 	}
 	x := in
